@@ -788,3 +788,70 @@ func WriteWitnesses() error {
 	b, _ := json.MarshalIndent(rf, "", " ")
 	return os.WriteFile(filepath.Join(report.Root, "replays", "F11.json"), append(b, '\n'), 0o644)
 }
+
+// CheckSlashServe (C14): histories of Add/Remove/Route/RemoveRoute/Handle on a real container, then
+// every probe p is sent through ServeHTTP as p and as p/: where Container.Dispatch gives both the same
+// outcome, ServeHTTP must too (pairs one of which net/http itself redirects are skipped).
+func CheckSlashServe(run *report.Run, n int) error {
+	SlashTwins = true
+	defer func() { SlashTwins = false }()
+	InstallLogger()
+	base := rng.New(run.Seed*15485867 + 9)
+	st := NewStats()
+	bad := 0
+	// a small structured family first: a WebService on a literal root with a route AT the root, next to one
+	// whose variable root shares its fixed prefix, in both registration orders, with and without a service
+	// on "/" shielding them for a while, and every single Remove
+	var directed []*History
+	for _, router := range []string{"curly", "jsr"} {
+		for _, pair := range [][2]string{{"/users", "/users/{id}/b"}, {"/a", "/a/{id}"}, {"/b", "/b/{x}"}} {
+			lit := SvcSpec{ID: 1, Root: pair[0], Dynamic: true, Routes: []routing.RouteDecl{{ID: 1, Method: "GET", Rel: ""}, {ID: 2, Method: "GET", Rel: "/x"}}}
+			vr := SvcSpec{ID: 2, Root: pair[1], Dynamic: true, Routes: []routing.RouteDecl{{ID: 3, Method: "GET", Rel: ""}}}
+			top := SvcSpec{ID: 3, Root: "/", Dynamic: true, Routes: []routing.RouteDecl{{ID: 4, Method: "GET", Rel: "/zzz"}}}
+			add := func(i int) Op { return Op{Kind: "add", Svc: i} }
+			rm := func(i int) Op { return Op{Kind: "remove", Svc: i} }
+			probes := []routing.Req{{Method: "GET", Path: pair[0]}, {Method: "POST", Path: pair[0]}, {Method: "GET", Path: pair[0] + "/x"}, {Method: "GET", Path: pair[0] + "/7/b"}, {Method: "GET", Path: pair[0] + "/7"}}
+			for _, ops := range [][]Op{
+				{add(0), add(1)}, {add(1), add(0)},
+				{add(0), add(1), rm(1)}, {add(1), add(0), rm(1)}, {add(0), add(1), rm(0)}, {add(1), add(0), rm(0)},
+				{add(2), add(0), add(1), rm(2)}, {add(2), add(1), add(0), rm(2)}, {add(1), add(2), add(0), rm(2)},
+				{add(1), add(0), rm(1), add(1)}, {add(0), add(1), rm(0), add(0)},
+			} {
+				directed = append(directed, &History{Router: router, Pool: []SvcSpec{lit, vr, top}, Ops: ops, Probes: probes})
+			}
+		}
+	}
+	for i := 0; i < n+len(directed); i++ {
+		r := base.Fork(uint64(i))
+		var h *History
+		if i < len(directed) {
+			h = directed[i]
+			run.Count("serve-level-slash:structured-shared-prefix-histories")
+		} else {
+			h = GenHistory(r, []string{"curly", "jsr"}[i%2], st)
+		}
+		// the root paths themselves, as declared without a trailing slash: where the two ServeMux
+		// patterns of a WebService (root and root/) matter most
+		for _, sp := range h.Pool {
+			if root := strings.TrimSuffix(NormRoot(sp.Root), "/"); root != "" && !strings.Contains(root, "{") {
+				h.Probes = append(h.Probes, routing.Req{Method: "GET", Path: root}, routing.Req{Method: "POST", Path: root})
+			}
+		}
+		res := Exec(h)
+		run.Evaluations += res.SlashPairs
+		run.TracesValidated += 4 * res.SlashPairs
+		run.Count("serve-level-slash-pairs-on-containers-with-a-past")
+		for _, d := range res.SlashDiff {
+			if bad < 3 {
+				bad++
+				ops := []string{}
+				for _, n := range res.OpNodes {
+					ops = append(ops, Pretty(n.String()))
+				}
+				run.AddViolation(report.Violation{Kind: "counterexample", What: "C14: " + d,
+					Human: map[string]interface{}{"router": h.Router, "history": ops}})
+			}
+		}
+	}
+	return nil
+}
